@@ -31,7 +31,9 @@ RULE = ('unit: arrays with 2-8 leaves, 3-14 genes, 1-5 cells, 1-12 '
         'counter widths (255, 256, 257, 300, 700, 65536; thorough also '
         '65535) on confidently mapped cells, unit and pipeline; elections over '
         '10001..24999 query rows (row batching), thorough also one ~12000-cell '
-        'pipeline run with one chunk vs 4000-cell chunks; malformed stream: factor > 1, '
+        'pipeline run with one chunk vs 4000-cell chunks; same-process histories '
+        '(consecutive problems through the SAME marker-cache / statistics paths, '
+        'real run_type_assignment in this process); malformed stream: factor > 1, '
         'factor <= 0, n_assignments 0, no reference rows, no marker genes. '
         'pipeline: generated '
         'mapping problems (independent gene orders of query and reference, '
@@ -961,6 +963,215 @@ def check_big_pipeline(ctx, case):
 
 
 # ---------------------------------------------------------------------------
+# same-process history: consecutive problems handed over through the SAME
+# paths (marker cache, statistics file), everything driven in this process
+# ---------------------------------------------------------------------------
+
+def gen_history(rng, n_steps):
+    import copy
+    steps = []
+    for k in range(n_steps):
+        if steps and rng.random() < 0.5:
+            # same taxonomy and statistics, revised marker table and a query
+            # written in another gene order
+            case = copy.deepcopy(steps[-1])
+            shared = [g for g in case['ref_genes'] if g in case['query_genes']]
+            for key in case['markers']:
+                m = rng.randint(min(4, len(shared)), len(shared))
+                case['markers'][key] = rng.sample(shared, m)
+            perm = list(range(len(case['query_genes'])))
+            rng.shuffle(perm)
+            case['query_genes'] = [case['query_genes'][j] for j in perm]
+            case['X'] = [[rng.random() * 8 for _ in perm] for _ in case['X']]
+            case['opts']['rng_seed'] = rng.randrange(2 ** 31)
+            case['label'] = ['revised-markers']
+        else:
+            case = ep.gen_pipeline_case(rng, 3 * k + 1)    # log2CPM flavour
+        case['opts']['flatten'] = False
+        case['opts']['drop_level'] = None
+        case['opts']['normalization'] = 'log2CPM'
+        steps.append(case)
+    return {'kind': 'history', 'steps': steps}
+
+
+def check_history(ctx, hist):
+    """each step: write statistics file and marker cache to the SAME paths as
+    the step before, run the real get_leaf_means / run_type_assignment
+    (assemble_query_data, _run_type_assignment, choose_node) in this process,
+    recompute from the files as they are now"""
+    import os
+    from ctmverif import pipeline
+    from cell_type_mapper.taxonomy.taxonomy_tree import TaxonomyTree
+    from cell_type_mapper.type_assignment import election
+    from cell_type_mapper.type_assignment.matching import get_leaf_means
+    from cell_type_mapper.type_assignment.marker_cache_v2 import (
+        create_marker_cache_from_specified_markers)
+    from cell_type_mapper.cell_by_gene.cell_by_gene import CellByGeneMatrix
+    import h5py
+    import warnings
+
+    def violation(cls, what, k, found=True, **extra):
+        d = {'kind': 'history', 'steps': hist['steps'][:k + 1], 'step': k}
+        d.update(extra)
+        if not found:
+            d['broken'] = what
+        ctx.violation('%s/history/%s' % (SIG, cls), what, d, found_input=found)
+
+    old_trace = os.environ.get('CELL_TYPE_MAPPER_VERIF_TRACE')
+    with pipeline.workdir() as d:
+        stats_path = d / 'stats.h5'
+        cache_path = d / 'marker_cache.h5'
+        trace_prefix = str(d / 'trace')
+        os.environ['CELL_TYPE_MAPPER_VERIF_TRACE'] = trace_prefix
+        os.environ['CELL_TYPE_MAPPER_VERIF'] = '1'
+        try:
+            for k, case in enumerate(hist['steps']):
+                ctx.count('history:step')
+                for lb in case.get('label', []):
+                    ctx.count('history:' + lb)
+                o = case['opts']
+                for f in (stats_path, cache_path):
+                    if f.exists():
+                        f.unlink()
+                pipeline.write_stats_file(
+                    stats_path, case['tree'], case['ref_genes'],
+                    {kk: np.array(v, dtype=float)
+                     for kk, v in case['leaf_sum'].items()}, case['leaf_n'])
+                tree = TaxonomyTree(data=json.loads(json.dumps(case['tree'])))
+                h = case['tree']['hierarchy']
+                with warnings.catch_warnings(), pipeline.quiet():
+                    warnings.simplefilter('ignore')
+                    create_marker_cache_from_specified_markers(
+                        marker_lookup=json.loads(json.dumps(case['markers'])),
+                        reference_gene_names=list(case['ref_genes']),
+                        query_gene_names=list(case['query_genes']),
+                        output_cache_path=cache_path, taxonomy_tree=tree,
+                        min_markers=1)
+                    leaf_means = get_leaf_means(
+                        taxonomy_tree=tree, precompute_path=stats_path,
+                        for_marker_selection=False)
+                    X = np.array(case['X'], dtype=float)
+                    query = CellByGeneMatrix(
+                        data=X, gene_identifiers=list(case['query_genes']),
+                        normalization='log2CPM')
+                    lookup = {lv: o['bootstrap_factor'] for lv in h[:-1]}
+                    lookup['None'] = o['bootstrap_factor']
+                    if o.get('bootstrap_factor_lookup'):
+                        lookup = dict((a, b) for a, b in
+                                      o['bootstrap_factor_lookup'])
+                    for f in d.glob('trace.*'):
+                        f.unlink()
+                    try:
+                        result = election.run_type_assignment(
+                            full_query_gene_data=query,
+                            leaf_node_matrix=leaf_means,
+                            marker_gene_cache_path=cache_path,
+                            taxonomy_tree=tree,
+                            bootstrap_factor_lookup=lookup,
+                            bootstrap_iteration=o['bootstrap_iteration'],
+                            rng=np.random.default_rng(o['rng_seed']),
+                            n_assignments=o['n_runners_up'] + 1)
+                    except Exception as e:   # noqa
+                        violation('run-fails/%s' % type(e).__name__,
+                                  'step %d: run_type_assignment failed: %r'
+                                  % (k, e), k)
+                        return
+                # what the cache file says NOW
+                with h5py.File(cache_path, 'r') as src:
+                    rnames = json.loads(
+                        src['reference_gene_names'][()].decode('utf-8'))
+                    now = {}
+                    for key in case['markers']:
+                        if key in src:
+                            now[key] = [rnames[j]
+                                        for j in src[key]['reference'][()]]
+                nodes = []
+                for f in sorted(d.glob('trace.*')):
+                    cur = None
+                    for line in open(f):
+                        ev = json.loads(line)
+                        if ev['kind'] == 'node':
+                            cur = dict(ev)
+                            cur['subsets'] = []
+                            cur['n_markers_seen'] = []
+                            nodes.append(cur)
+                        elif ev['kind'] == 'subset' and cur is not None:
+                            cur['subsets'].append(list(ev['chosen_idx']))
+                            cur['n_markers_seen'].append(ev['n_markers'])
+                for nd in nodes:
+                    key = 'None' if nd['parent'] is None else \
+                        '%s/%s' % tuple(nd['parent'])
+                    ctx.evaluations += 1
+                    if list(nd['reference_genes']) != now.get(key) or \
+                            set(nd['query_genes']) != set(
+                                case['markers'].get(key, [])):
+                        violation(
+                            'node/genes-not-current-markers',
+                            'step %d of a same-process history, node %s: '
+                            'the vote used genes %r, the marker cache at '
+                            'that path now lists %r (marker table %r)'
+                            % (k, key, nd['reference_genes'], now.get(key),
+                               sorted(case['markers'].get(key, []))), k)
+                        return
+                cell_ids = list(case['cell_ids'])
+                results = []
+                for cid, r in zip(cell_ids, result):
+                    rec = {'cell_id': cid}
+                    for lv in h:
+                        e = r[lv]
+                        rec[lv] = {
+                            'assignment': str(e['assignment']),
+                            'bootstrapping_probability':
+                                float(e['bootstrapping_probability']),
+                            'avg_correlation': None
+                            if e['avg_correlation'] is None
+                            else float(e['avg_correlation']),
+                            'runner_up_assignment':
+                                [str(v) for v in e['runner_up_assignment']],
+                            'runner_up_correlation':
+                                [float(v) for v in
+                                 e['runner_up_correlation']],
+                            'runner_up_probability':
+                                [float(v) for v in
+                                 e['runner_up_probability']],
+                            'aggregate_probability':
+                                float(e['aggregate_probability'])}
+                    results.append(rec)
+                genes, means, tree_now = eu.read_stats_means(stats_path)
+                inputs = {'ref_genes': genes, 'means': means,
+                          'tree': tree_now, 'cell_names': cell_ids,
+                          'query_genes': list(case['query_genes']),
+                          'xlog': np.array(case['X'], dtype=float)}
+                res = {'ok': True, 'error': None,
+                       'json': {'results': results},
+                       'chunks': [{'r0': 0, 'r1': len(cell_ids),
+                                   'cell_ids': cell_ids, 'nodes': nodes}]}
+                sub = dict(case)
+                sub['history_step'] = k
+                n0 = len(ctx.violations)
+                ep.analyse_run(ctx, SIG + '/history', sub, res, inputs, o,
+                               do_votes=True, do_c03=False)
+                if len(ctx.violations) > n0:
+                    for v in ctx.violations[n0:]:
+                        v['detail'] = eu_jsonable({
+                            'kind': 'history', 'step': k,
+                            'steps': hist['steps'][:k + 1],
+                            'what': v['detail'].get('broken')})
+                    return
+        finally:
+            if old_trace is None:
+                os.environ.pop('CELL_TYPE_MAPPER_VERIF_TRACE', None)
+            else:
+                os.environ['CELL_TYPE_MAPPER_VERIF_TRACE'] = old_trace
+    ctx.traces += 1
+
+
+def eu_jsonable(x):
+    from ctmverif import core
+    return core.jsonable(x)
+
+
+# ---------------------------------------------------------------------------
 # run / replay
 # ---------------------------------------------------------------------------
 
@@ -977,7 +1188,7 @@ def run(ctx):
     quick = ctx.tier == 'quick'
     n_unit = 150 if quick else 2000
     n_mal = 25 if quick else 150
-    n_pipe = 50 if quick else 700
+    n_pipe = 40 if quick else 700
     for i in range(n_unit):
         check_unit(ctx, gen_unit(rng, i))
     for i in range(n_mal):
@@ -989,6 +1200,8 @@ def run(ctx):
     check_many(ctx, gen_many(rng, 65536, with_choose=not quick))
     if not quick:
         check_many(ctx, gen_many(rng, 65535))
+    for _ in range(3 if quick else 25):
+        check_history(ctx, gen_history(rng, 4 if quick else 6))
     for n_query in (10001, 12000, 14999, 20001, 24999):
         check_rows(ctx, gen_rows(rng, n_query))
     if not quick:
@@ -1015,6 +1228,8 @@ def replay(ctx, data, from_corpus=False):
         check_many(ctx, d)
     elif kind == 'unit-rows':
         check_rows(ctx, d)
+    elif kind == 'history':
+        check_history(ctx, d)
     elif kind == 'big-pipeline':
         check_big_pipeline(ctx, d)
     elif kind == 'pipeline':
